@@ -5,7 +5,7 @@ from typing import List, Optional
 from glom import glom, T, Path, PathAccessError, GlomError
 import glom.core as gc
 
-from vkit.common import start, reach, fail, known_open, concretize, OUT
+from vkit.common import start, reach, fail, known_open, concretize, OUT, run
 from vkit.ob import Ob
 import vkit.stubs  # noqa: F401
 
@@ -347,6 +347,51 @@ def cache_indep(k0: int, c0: int, c1: int, warm: int, p0: bool, p1: bool, leaf: 
 R4 = [0, 2, 4, 7]      # restricted kinds for deep walks: dict, list, object, None
 
 
+# ---- "the access registered for each intermediate value's type": a user registration, made before or after the type was met ---
+class Record:
+    """values live in ._fields; the registered access looks there, plain getattr would not"""
+    def __init__(self, **fields):
+        self._fields = fields
+        self.kind = 'attribute-kind'
+
+
+def _record_get(rec, name):
+    return rec._fields[name]
+
+
+def registered_access(warm: bool, exact: bool, where: int, style: int, x: int) -> bool:
+    import glom as glom_pkg
+    from glom import Glommer
+    start()
+    where, style = concretize(where, 0, 1), concretize(style, 0, 2)
+    if where is OUT or style is OUT:
+        return True
+    leaf = [x]
+    rec = Record(name=leaf, kind=None)
+    target = {'a': [{'r': rec}], 'r': rec}
+    if where == 0:
+        g = Glommer()
+        ev, reg = g.glom, g.register
+    else:
+        ev, reg = glom, glom_pkg.register            # module-level registry (restored by the state reset)
+    spell = lambda *segs: ['.'.join(segs), Path(*segs), Path(*[T[s] if i == 0 else s for i, s in enumerate(segs)])][style]
+    if warm:
+        # the type is met BEFORE it is registered: attribute access then
+        if ev(target, spell('a', '0', 'r', 'kind') if style != 2 else Path('a', 0, 'r', 'kind')) != 'attribute-kind':
+            return fail(why='before registration a Record is an attribute object')
+    reg(Record, get=_record_get, exact=exact)
+    reach('registered_access')
+    got = run(lambda: ev(target, spell('r', 'name'), glom_debug=True))
+    if got.kind != 'ok' or got.value is not leaf:
+        return fail(why='the registered access must be used for the very next call', got=got, warm=warm, exact=exact)
+    got = run(lambda: ev(target, spell('r', 'kind'), glom_debug=True))
+    if got.kind != 'ok' or got.value is not None:
+        return fail(why='a field shadowed by an attribute: the registered access decides', got=got)
+    got = run(lambda: ev(target, spell('r', 'nofield', 'x'), glom_debug=True))
+    ok = got.kind == 'err' and isinstance(got.exc, PathAccessError) and got.exc.part_idx == 1 and type(got.exc.exc) is KeyError
+    return ok or fail(why='a failing registered access is the PathAccessError of that segment', got=got)
+
+
 def _in(var, vals):
     return '(' + ' or '.join('%s == %d' % (var, v) for v in vals) + ')'
 
@@ -403,6 +448,8 @@ def obligations(tier):
     for warm in range(4):
         pre = ' and '.join([_in('k0', [0, 1, 4]), _in('c0', [0, 1, 2]), _in('c1', [0, 1, 2, 9])])
         obs.append(Ob(cache_indep, fixed={'warm': warm}, pre=pre, name='cache_indep_w%d' % warm))
+    obs.append(Ob(registered_access, pre='0 <= where <= 1 and 0 <= style <= 2', name='registered_access'))
+    obs.append(Ob(registered_access, pre='0 <= where <= 1 and 0 <= style <= 2', twin='registered_access', name='registered_access'))
     # vacuity twins
     tpre = '0 <= ch < %d and 0 <= spelling <= 2 and %s' % (NSEG, base)
     obs.append(Ob(step1, fixed={'kind': 2}, pre=tpre, twin='walk_ok', name='step1_list'))
